@@ -198,4 +198,7 @@ def replay(ctx: Ctx, case):
 
 def run(ctx: Ctx):
     q = ctx.tier == "quick"
-    run_given(ctx, "coarsen", cases(), check_coarsen, per_shard(ctx, 1000 if q else 30000), batch=50)
+    if not run_given(ctx, "coarsen", cases(), check_coarsen, per_shard(ctx, 1000 if q else 30000), batch=50):
+        return
+    if not q:
+        run_given(ctx, "coarsen-wide", cases(5, 12), check_coarsen, per_shard(ctx, 12000), batch=50)
